@@ -138,16 +138,77 @@ func drawKey(g *gen.G, label string) blsKey {
 			sks = append(sks, decodeSK(g, x))
 			sum.Set(x)
 		}
+		warmKeys(g, label+"Warm", sks)
 		sk, err := crypto.AggregateBLSPrivateKeys(sks)
 		if err != nil {
 			g.Fatalf("AggregateBLSPrivateKeys failed: %v", err)
 		}
-		return blsKey{sk: sk, pk: sk.PublicKey(), x: sum, how: "aggregated"}
+		k := blsKey{sk: sk, pk: sk.PublicKey(), x: sum, how: "aggregated"}
+		k.pk = pkVariant(g, label+"PkVia", k)
+		return k
 	default:
 		x, how := drawScalar(g, label)
 		sk := decodeSK(g, x)
-		return blsKey{sk: sk, pk: sk.PublicKey(), x: x, how: "decoded:" + how}
+		k := blsKey{sk: sk, pk: sk.PublicKey(), x: x, how: "decoded:" + how}
+		k.pk = pkVariant(g, label+"PkVia", k)
+		return k
 	}
+}
+
+// warmKeys calls PublicKey() on a generated subset of the private keys before they are used: the public key of a
+// private key is computed lazily and cached, so "already asked for its public key" is part of an object's history
+// (an aggregate must not depend on which of its inputs had been asked).
+func warmKeys(g *gen.G, label string, sks []crypto.PrivateKey) {
+	if len(sks) == 0 {
+		return
+	}
+	mask := g.Int(label, 0, (1<<uint(min(len(sks), 10)))-1)
+	for i, sk := range sks {
+		if i < 10 && mask&(1<<uint(i)) != 0 {
+			_ = sk.PublicKey()
+		}
+	}
+	if mask != 0 && mask != (1<<uint(min(len(sks), 10)))-1 {
+		g.Class("history:someInputsHadPublicKeyCached")
+	}
+}
+
+// pkVariant returns a public key object that represents the same G2 element as k.pk but was obtained through a
+// generated route: as returned by PublicKey(), decoded from its encoding, a one-element aggregate, or what
+// RemoveBLSPublicKeys leaves after removing a second key from an aggregate (the only exported constructor whose
+// result the C layer does not normalise to affine coordinates).  Every verification property must be independent of
+// the route.
+func pkVariant(g *gen.G, label string, k blsKey) crypto.PublicKey {
+	switch g.Int(label, 0, 7) {
+	case 4:
+		pk, err := crypto.DecodePublicKey(crypto.BLSBLS12381, k.pk.Encode())
+		if err != nil {
+			g.Fatalf("DecodePublicKey of an encoded public key failed: %v", err)
+		}
+		g.Class("pkVia:decoded")
+		return pk
+	case 5:
+		pk, err := crypto.AggregateBLSPublicKeys([]crypto.PublicKey{k.pk})
+		if err != nil {
+			g.Fatalf("AggregateBLSPublicKeys([pk]) failed: %v", err)
+		}
+		g.Class("pkVia:singletonAggregate")
+		return pk
+	case 6, 7:
+		ox := big.NewInt(int64(g.Int(label+"Other", 2, 1<<30)))
+		other := decodeSK(g, ox).PublicKey()
+		agg, err := crypto.AggregateBLSPublicKeys([]crypto.PublicKey{other, k.pk})
+		if err != nil {
+			g.Fatalf("AggregateBLSPublicKeys failed: %v", err)
+		}
+		pk, err := crypto.RemoveBLSPublicKeys(agg, []crypto.PublicKey{other})
+		if err != nil {
+			g.Fatalf("RemoveBLSPublicKeys failed: %v", err)
+		}
+		g.Class("pkVia:removal")
+		return pk
+	}
+	return k.pk
 }
 
 // scriptHasher is a hash.Hasher of size 128 whose ComputeHash returns a scripted block
@@ -201,15 +262,54 @@ func drawHasher(g *gen.G, label string) (hash.Hasher, string) {
 	return crypto.NewExpandMsgXOFKMAC128(tag), "kmac:" + tag
 }
 
+// sigSuite is the signature ciphersuite the documentation says NewExpandMsgXOFKMAC128 appends to the domain tag.
+const sigSuite = "BLS_SIG_BLS12381G1_XOF:KMAC128_SSWU_RO_POP_"
+
+// kmacTagOf returns the domain tag of a hasher description produced by drawHasher ("kmac:<tag>").
+func kmacTagOf(desc string) (string, bool) {
+	if len(desc) >= 5 && desc[:5] == "kmac:" {
+		return desc[5:], true
+	}
+	return "", false
+}
+
 func drawTag(g *gen.G, label string) string {
-	switch g.Int(label+"Kind", 0, 3) {
+	switch g.Int(label+"Kind", 0, 4) {
 	case 0:
 		return ""
 	case 1:
 		return "flow-" + fmt.Sprint(g.Int(label+"N", 0, 50))
+	case 4:
+		// long tags: tag ‖ ciphersuite is the KMAC key, whose padded encoding spans several 168-byte cSHAKE blocks
+		// (the suite is 43 bytes: the block boundaries are crossed at tag lengths around 120, 288, 456)
+		n := g.Int(label+"LongLen", 100, 480)
+		return string(g.Expand(label+"LongBytes", n))
 	default:
 		return string(g.Bytes(label+"Bytes", 0, 130))
 	}
+}
+
+// neighbourTag returns a tag that differs from tag in exactly one generated way (one byte changed at the start, in the
+// middle or at the end, one byte appended or dropped): domain separation must hold between any two different tags,
+// including two long tags that agree on their first KMAC key block.
+func neighbourTag(g *gen.G, label, tag string) string {
+	b := []byte(tag)
+	if len(b) == 0 {
+		return "x"
+	}
+	switch g.Int(label, 0, 4) {
+	case 0:
+		b[len(b)-1] ^= 0x01
+	case 1:
+		b[0] ^= 0x80
+	case 2:
+		b[len(b)/2] ^= 0x10
+	case 3:
+		b = append(b, 0x00)
+	default:
+		b = b[:len(b)-1]
+	}
+	return string(b)
 }
 
 func drawMsg(g *gen.G, label string) []byte {
